@@ -581,6 +581,7 @@ func runMaven(c *wcase, dir string, o *wobs, dump bool) {
 			o.Changed[k] = val
 		}
 		o.Added = append(o.Added, r.added...)
+		o.Lost = append(o.Lost, r.lost...)
 		if r.diff != "" && o.Diff == "" {
 			o.Preserved = false
 			o.Diff = name + ": " + r.diff
@@ -591,6 +592,7 @@ func runMaven(c *wcase, dir string, o *wobs, dump bool) {
 		cmpFile("pom.xml", pinToks, pout, pflags, false)
 	}
 	sort.Slice(o.Added, func(i, j int) bool { return o.Added[i].K < o.Added[j].K })
+	sort.Strings(o.Lost)
 	// (i) re-read with the real reader
 	_, v1, err := readView(rw, outRoot, c.Par)
 	if err != nil {
